@@ -15,7 +15,7 @@ STREAMS = ['codec-valid', 'codec-large', 'codec-small-types', 'codec-malformed-v
 THEOREMS = ['Spec.decode_encode', 'C01_roundtrip', 'C01_roundtrip_valid', 'C01_roundtrip_conf', 'C01_roundtrip_checked', 'C01_marshal_arity',
             'C01_roundtrip_any_fuel', 'C01_roundtrip_fuel_free', 'C01_roundtrip_valid_fuel_free',
             'C01_roundtrip_noVariant_fuel_free', 'C01_roundtrip_conf_fuel_free', 'C01_roundtrip_checked_fuel_free',
-            'C01_roundtrip_no_list', 'C01_roundtrip_no_list_fuel_free']
+            'C01_roundtrip_no_list', 'C01_roundtrip_no_list_fuel_free', 'C01_roundtrip_initial_list']
 TRUSTED_BASE = [
     "CPython struct.pack/unpack_from, codecs utf-8/ascii, dict, zip/generators, int->float conversion: mirrored in "
     "Wire/Code.lean (pack, unpackFrom, utf8*, buildDict, marshalSeq, intToDouble), validated by the streams, not proved",
@@ -1097,6 +1097,8 @@ def run_histories(ctx, pool):
         inp = case.get('input', case)
         if isinstance(inp, dict) and isinstance(inp.get('sig'), str):
             used.add(inp['sig'])
+        for steps in (inp.get('histories') or []) if isinstance(inp, dict) else []:
+            used.update(st['sig'] for st in steps if isinstance(st.get('sig'), str))
     used.update(BURST_VALID)
     for n_fail in ([40, 130] if ctx.tier == 'quick' else [1, 7, 40, 130, 400, 1100]):
         hs.run(*gen_burst_history(rng, n_fail))
